@@ -171,6 +171,8 @@ class Interp:
         self.current_qualname = None
         self.loop_counter = 0
         self.calls_made = []          # (callee qualname, line)
+        self.contract_calls = []      # (callee qualname, bound args, result)
+        self._loop_ord = {}
         self.global_state = {}        # (module, name) -> Value  (module-level mutable state)
         self.birth = {}               # id(obj) -> acc depth at creation
         self.yield_targets = []
@@ -289,6 +291,9 @@ class Interp:
             e = e.parent
         if self.spec_mode and name in self.specfuns.SPEC:
             return VFunc("spec", name)
+        if self.spec_mode and name in self.registry.predicates:
+            pnode, ppath = self.registry.predicates[name]
+            return VFunc("closure", name, node=pnode, env=Env(env.module))
         try:
             return self.module_name(env.module, name, node)
         except KeyError:
@@ -393,6 +398,9 @@ class Interp:
             cb = c if isinstance(c, bool) else concrete_bool(c)
             if cb is not None:
                 return self.ev(node.body if cb else node.orelse, env)
+            if getattr(self, "spec_fork_ok", False):
+                # a contract's `returns` evaluated at a call site may fork like code does
+                return self.ev(node.body if self.ctx.decide(c, "spec-ite") else node.orelse, env)
             a, b = self.ev(node.body, env), self.ev(node.orelse, env)
             return self.v_ite(c, a, b, node)
         if self.test(self.ev(node.test, env), node):
@@ -429,6 +437,9 @@ class Interp:
                 for v in node.values:
                     t = self.as_bool_term(self.ev(v, env), node)
                     ts.append(t)
+                    cb = concrete_bool(t)
+                    if cb is not None and cb == isinstance(node.op, ast.Or):
+                        break       # short-circuit: the rest need not be (and may not be) evaluable
                     self.ctx.spec_hyps.append(t if isinstance(node.op, ast.And) else z3.Not(t))
                     pushed += 1
             finally:
@@ -913,7 +924,11 @@ class Interp:
             if not self.spec_mode:
                 if not self.ctx.decide(base.dom(idx), getattr(node, "lineno", "")):
                     raise PyRaise("KeyError", "key", getattr(node, "lineno", None))
-            return base.get(idx)
+            r = base.get(idx)
+            if isinstance(r, Value) and r.mutable and not self.spec_mode:
+                r.dict_origin = (base, idx)
+                self.birth[id(r)] = self.birth_depth(base)
+            return r
         r = self.externs.index_hook(self, base, idx, node)
         if r is not None:
             return r
@@ -1020,7 +1035,7 @@ class Interp:
                     is_prop = any(isinstance(d, ast.Name) and d.id == "property" for d in n.decorator_list)
                     is_static = any(isinstance(d, ast.Name) and d.id == "staticmethod" for d in n.decorator_list)
                     return ("method", {"node": n, "module": module, "cls": c, "static": is_static, "prop": is_prop,
-                                       "qualname": f"{c.name}.{attr}"})
+                                       "qualname": f"{c.name.split('.')[-1]}.{attr}"})
                 if isinstance(n, ast.Assign) and len(n.targets) == 1 and isinstance(n.targets[0], ast.Name) \
                         and n.targets[0].id == attr:
                     return ("value", self.ev(n.value, Env(module)))
@@ -1088,6 +1103,8 @@ class Interp:
     def ev_Call(self, node, env):
         if self.spec_mode and isinstance(node.func, ast.Name) and node.func.id == "implies" and len(node.args) == 2:
             a = self.as_bool_term(self.ev(node.args[0], env), node)
+            if concrete_bool(a) is False:
+                return VBool(True)
             self.ctx.spec_hyps.append(a)
             try:
                 b = self.as_bool_term(self.ev(node.args[1], env), node)
@@ -1286,7 +1303,9 @@ class Interp:
         m, fnode, cls = self.repo.find_function(c.qualname)
         denv = Env(m)
         bound = self.bind_args(fnode.args, args, kwargs, denv, node, c.qualname.split(".")[-1])
-        return c.apply(self, bound, node)
+        res = c.apply(self, bound, node)
+        self.contract_calls.append((c.qualname, bound, res))
+        return res
 
     # ------------------------------------------------------------------ statements
     def exec_block(self, stmts, env):
@@ -1478,6 +1497,16 @@ class Interp:
             return
         self.unsupported(node, f"item store on {base!r}")
 
+    def dict_val_ite(self, cond, a, b):
+        """ite over dict values (lists become point-wise ites)"""
+        cb = concrete_bool(cond)
+        if cb is not None:
+            return a if cb else b
+        if isinstance(a, VList) and isinstance(b, VList):
+            la, lb = self.seq_len(a), self.seq_len(b)
+            return VList(SymSeq(z3.If(cond, la, lb), lambda k: self.v_ite(cond, self.seq_at(a, k), self.seq_at(b, k))), a.kind)
+        return self.v_ite(cond, a, b)
+
     def dict_setitem(self, d, k, v, node):
         if self.ctx.acc_frames and self.birth_depth(d) < len(self.ctx.acc_frames):
             # emit into an outer dict: only sound as a comprehension when keys are distinct per emit;
@@ -1487,9 +1516,10 @@ class Interp:
         if d.items is not None:
             self.dict_store(d.items, k, v)
             return
+        self.check_mutable_target(d, node, "[...]")
         old_dom, old_get = d.dom, d.get
         d.dom = lambda key: z3.Or(self.veq(key, k), old_dom(key))
-        d.get = lambda key: self.v_ite(self.veq(key, k), v, old_get(key))
+        d.get = lambda key: self.dict_val_ite(self.veq(key, k), v, old_get(key))
 
     def ex_AugAssign(self, node, env):
         t = node.target
@@ -1564,6 +1594,17 @@ class Interp:
             self.emit(lst, v, node)
             return
         c = lst.content
+        org = getattr(lst, "dict_origin", None)
+        if org is not None:
+            # in-place append to a list stored in a symbolic dict = functional update of the dict at that key
+            d, key = org
+            n = c.length if isinstance(c, SymSeq) else z3.IntVal(len(c.items))
+            old = VList(c)
+            newlist = VList(SymSeq(n + 1, lambda k: self.v_ite(k == n, v, self.seq_at(old, k)), getattr(c, "elem_kind", None)))
+            lst.content = newlist.content
+            old_get = d.get
+            d.get = lambda kk: self.dict_val_ite(self.veq(kk, key), newlist, old_get(kk))
+            return
         if isinstance(c, ConcreteSeq):
             c.items.append(v)
         elif isinstance(c, SymSeq):
@@ -1610,9 +1651,27 @@ class Interp:
             c.sites.append(Site(f"L{getattr(node, 'lineno', '?')}", [], z3.BoolVal(True), v))
 
     # loops -------------------------------------------------------------------
+    def loop_label(self, node, env):
+        """loops are keyed by their ordinal in source order inside the enclosing top-level function
+        (robust against edits that merely shift line numbers)"""
+        f = env.func
+        e = env
+        while e is not None and e.parent is not None and e.parent.func is not None:
+            e = e.parent
+            f = e.func or f
+        if f is None:
+            return f"L{node.lineno}"
+        key = id(f)
+        if key not in self._loop_ord:
+            loops = [n for n in ast.walk(f) if isinstance(n, (ast.For, ast.While))]
+            loops.sort(key=lambda n: (n.lineno, n.col_offset))
+            self._loop_ord[key] = {id(n): i + 1 for i, n in enumerate(loops)}
+        o = self._loop_ord[key].get(id(node))
+        return f"loop{o}" if o else f"L{node.lineno}"
+
     def ex_For(self, node, env):
         self.loop_counter += 1
-        label = f"L{node.lineno}"
+        label = self.loop_label(node, env)
         it = self.ev(node.iter, env)
         if node.orelse:
             self.unsupported(node, "for-else")
@@ -1780,7 +1839,7 @@ class Interp:
         self.specfuns.loop_inv(self, target, it, body, env, node, label, rule)
 
     def ex_While(self, node, env):
-        label = f"L{node.lineno}"
+        label = self.loop_label(node, env)
         c = self.current_contract
         rule = c.loop_rule(label) if c is not None else None
         if rule is None or rule.kind != "inv":
